@@ -562,6 +562,38 @@ def rule_D(F, R):
                         R.ok("D4", "WrapperTxn::commit returns call(TxnMessage::Commit) on all %d paths" % len(paths), where(b))
                     else:
                         R.violation("D4", it["path"], "commit-result-not-forwarded", "the proxy's commit does not return the actor's Commit reply: a failed commit could be reported as success", where(b))
+    # D4 for every proxied method: the caller learns the actor's verdict
+    helpers = set()
+    for q, qb in F.bodies.items():
+        if not q.startswith("storage::send_wrapper::wrapper::") or qb["kind"] not in ("AssocFn", "Fn") or F.owner(q) != q:
+            continue
+        rb = F.real_body(q)
+        if rb is None or not any(any(n.endswith("oneshot::channel") for n in call_names(t)) for _i, t in cfg_of(rb).calls()):
+            continue
+        ps = [p for p in SymExec(rb, cfg_of(rb)).run() if p.end[0] == "return"]
+        good = [p for p in ps if not (p.ret[0] == "A" and p.ret[2] == "Err")]
+        if good and all(_has(p.ret, lambda v: v[0] == "F" and v[1][0] == "C" and v[1][2].endswith("oneshot::channel") and str(v[3]) == "1") for p in good):
+            helpers.add(q)
+    if not helpers:
+        R.missing("D4", "the proxy's request/reply helper (creates a oneshot channel and returns what the receiver yields)")
+    nmeth = 0
+    for im3 in F.impls_of_trait.get(TXN, []):
+        if "WrapperTxn" not in im3["self"] or not helpers:
+            continue
+        for it in im3["items"]:
+            if not it.get("fn") or it["name"] == "commit":
+                continue
+            b = F.real_body(it["path"])
+            if b is None:
+                continue
+            nmeth += 1
+            paths = [p for p in SymExec(b, cfg_of(b)).run() if p.end[0] == "return"]
+            bad = [p for p in paths if not (p.ret[0] == "A" and p.ret[2] == "Err") and not _has(p.ret, lambda v: v[0] == "C" and v[2] in helpers)]
+            if bad or not paths:
+                R.violation("D4", it["path"], "reply-not-awaited:" + it["name"], "the proxy's %s can return without the actor's reply: a write the actor thread rejected is reported as done, and the commit goes ahead with part of the batch missing" % it["name"], where(b))
+            else:
+                R.ok("D4", "%s returns the actor's reply" % it["name"], where(b))
+    R.floor("D4", "proxied StorageTxn methods", nmeth, 18)
     # D5: crash-safe journal
     R.begin("D5", "the SQLite journal mode is crash-safe (not MEMORY/OFF) and synchronous is not OFF")
     n = 0
